@@ -73,6 +73,27 @@ LOCI = {
 }
 
 
+def parametric_models(g, kind):
+    """loci whose second isoform is placed by the solver relative to the first one"""
+    T1 = ("T1", "G1", "+", [(1000, 1200), (2000, 2150), (3000, 3300)])
+    if kind == "alt_sites":
+        # inner exon of T2 = inner exon of T1 with both borders moved by symbolic amounts (within and beyond delta)
+        a, b = g.int("T2_acceptor_shift", -15, 15), g.int("T2_donor_shift", -15, 15)
+        g.add(OR(a != 0, b != 0))
+        return [T1, ("T2", "G1", "+", [(1000, 1200), (2000 + a, 2150 + b), (3000, 3300)])]
+    if kind == "alt_ends":
+        a, b = g.int("T2_start_shift", -120, 120), g.int("T2_end_shift", -120, 120)
+        g.add(OR(a != 0, b != 0))
+        return [T1, ("T2", "G1", "+", [(1000 + a, 1200), (2000, 2150), (3000, 3300 + b)])]
+    if kind == "inner_exon_anywhere":
+        # T2 has the terminal exons of T1 and an inner exon placed anywhere in between
+        s_ = g.int("T2_inner_start", 1300, 2800)
+        ln = g.int("T2_inner_length", 20, 300)
+        g.add(s_ + ln <= 2900)
+        return [T1, ("T2", "G1", "+", [(1000, 1200), (s_, s_ + ln), (3000, 3300)])]
+    raise ValueError(kind)
+
+
 def build_locus(name, delta, models=None):
     ms = [TranscriptModel("chr1", s, t, gid, ex, TranscriptModelType.known) for t, gid, s, ex in (models or LOCI[name])]
     gi = GeneInfo.from_models(ms, delta)
@@ -147,4 +168,4 @@ def chains_equal_within(a_exons, b_exons, delta):
     ia_, ib = introns_of(a_exons), introns_of(b_exons)
     if len(ia_) != len(ib):
         return False
-    return all(abs(x[0] - y[0]) <= delta and abs(x[1] - y[1]) <= delta for x, y in zip(ia_, ib))
+    return AND([AND(abs_le(x[0] - y[0], delta), abs_le(x[1] - y[1], delta)) for x, y in zip(ia_, ib)]) if ia_ else True
